@@ -308,6 +308,7 @@ def mon_stall(c):
     v = []
     fired, ended = set(), False
     sid_of = {}
+    must_ok = {text.split(" ")[2] for (_, text) in c.notes if text.startswith("expect-ok ")}
     for (f, cmp_, diag, _) in c.steps:
         if cmp_ == "panic":
             v.append(("panic", " ".join(f[2:4])[:80]))
@@ -331,6 +332,9 @@ def mon_stall(c):
                 v.append(("timeout-result-waited-for-write-deadline", "%s: the result of the fired timeout was only delivered once a write deadline had passed" % tag))
         elif what == "read":
             tag, st = d[1], d[2]
+            if tag in must_ok and st not in ("ok", "again", "unknown"):
+                # the server's GOAWAY covered this request and the server answered it
+                v.append(("accepted-stream-lost-its-response", "%s: at or below GOAWAY's last-stream-id and answered by the server, yet its caller got `%s`" % (tag, st)))
             if st == "none":
                 if tag in fired:
                     v.append(("stranded-request", "%s has no result after its timeout fired" % tag))
@@ -367,6 +371,10 @@ def mon_stall(c):
             if kv.get("noresult", "-") != "-":
                 v.append(("stranded-request", "%s: no result after the connection ended" % kv.get("noresult")))
     return v
+
+
+def mon_stall_goaway_only(c):
+    return [x for x in mon_stall(c) if x[0] == "accepted-stream-lost-its-response"]
 
 
 def mon_stall_blocking_only(c):
@@ -947,10 +955,10 @@ def run_c12(ctx):
 
 
 def run_c11(ctx):
-    return run_areas(ctx, ["cligoaway", "cliwfail", "clirace"], [mon_goaway, mon_resolve_deadlock_only, mon_errvalue],
+    return run_areas(ctx, ["cligoaway", "cliwfail", "clirace", "clistall"], [mon_goaway, mon_resolve_deadlock_only, mon_errvalue, mon_stall_goaway_only],
                      "cligoaway: GOAWAY(last, code, debug data) at every position relative to in-flight requests, answers in every order; what "
                      "LastErr and the requests' errors say about the GOAWAY is compared with the frame sent, when handed out and again after "
-                     "Close, later frames and later connections. " + WFAIL_NOTE)
+                     "Close, later frames and later connections; clistall: a GOAWAY arriving while a covered request's HEADERS are still being written to a slow peer (monitor-only ops). " + WFAIL_NOTE)
 
 
 def run_c02(ctx):
